@@ -7,7 +7,7 @@ import random
 from .. import boot  # noqa: F401
 from .. import world as W
 from ..corpus import Session
-from ..runner import sig_of
+from ..runner import sig_of, rearm
 
 PROPERTY = "C11"
 LEVEL = "fault_enumeration"
@@ -209,6 +209,7 @@ async def execute(net, hyg, plan):
 
 
 def run_plan(plan, seed=0):
+    rearm()
     async def main(net, hyg):
         return await execute(net, hyg, plan)
     res, info = W.run(main, seed=seed, net_kwargs=dict(mss=plan.get("mss", 1460), latency=plan.get("latency", 0.001)))
